@@ -121,6 +121,28 @@ def set_order_sensitive(case):
     return False
 
 
+def sql_file_family():
+    """an evolution shipped as SQL files, one per database alias with different contents (and, in one case, a
+    generic file next to them): what `evolve --sql --database X` prints is what `--execute --database X` runs"""
+    def fld(name, t, **attrs):
+        return {'name': name, 'type': t, 'attrs': attrs, 'related': None}
+    spec0 = {'apps': [{'id': 'vapp', 'models': [
+        {'name': 'Note', 'table': 'vapp_note', 'unique_together': [], 'index_together': [], 'indexes': [],
+         'constraints': [], 'fields': [fld('id', 'AutoField', primary_key=True),
+                                       fld('title', 'CharField', max_length=20, null=True),
+                                       fld('created', 'IntegerField', null=True)]}]}]}
+    d = ['CREATE INDEX "vapp_note_title_idx" ON "vapp_note" ("title");']
+    o = ['CREATE INDEX "vapp_note_title_oth" ON "vapp_note" ("title");',
+         'CREATE INDEX "vapp_note_created_oth" ON "vapp_note" ("created");']
+    g = ['CREATE INDEX "vapp_note_title_any" ON "vapp_note" ("title");']
+    out = []
+    for alias, files in (('other', {'default': d, 'other': o}), ('default', {'default': d, 'other': o}),
+                         ('other', {'': g, 'default': d, 'other': o}), ('other', {'other': o})):
+        out.append({'family': 'sql_files', 'spec0': spec0, 'spec1': spec0, 'muts': [], 'alias': alias,
+                    'sql_files': files, 'rows': False})
+    return out
+
+
 def flat(groups):
     return [s for g in groups for s in g[1]]
 
@@ -157,7 +179,7 @@ def run(ctx):
                 '`evolve --execute`; non-trivial = the preview has at least one statement' % len(seeds))
     flag = ctx.variant.get('together_iteration')
     n = 82 if quick else 600
-    cases = [{'case': c, 'seed': i} for i, c in enumerate(together_family() + index_family() + delete_m2m_family() + custom_field_family())]
+    cases = [{'case': c, 'seed': i} for i, c in enumerate(together_family() + index_family() + delete_m2m_family() + custom_field_family() + sql_file_family())]
     tries = 0
     while len(cases) < n + 10 and tries < n * 6:
         tries += 1
